@@ -113,6 +113,16 @@ func c06Scenarios(tier string) []*Scenario {
 		add(c, RPC{Kind: "cs", Client: []string{"E0", "S1", "C", "R*"}, Handler: []string{"r*", "s0", "ret:ok"}})
 		add(c, RPC{Kind: "bd", Client: []string{"E0", "E1", "C"}, Client2: []string{"R*"}, Handler: []string{"r", "s0", "r*", "ret:ok"}})
 	}
+	// two calls one after the other, the first given up by its caller (own deadline) possibly before its
+	// server goroutine got to decode the request: each handler still gets its own call's request
+	for _, h0 := range [][]string{{"dec", "ret:ok"}, {"w", "dec", "ret:ok"}} {
+		sc := &Scenario{Prop: "C06", Transport: "inproc", Bound: -1, Opts: "seq0,timers", Cloner: "recording", RPCs: []RPC{
+			{Kind: "unary", Client: []string{"I"}, Handler: h0, Timeout: "1s"},
+			{Kind: "unary", Client: []string{"I"}, Handler: []string{"dec", "ret:ok"}},
+		}}
+		sc.Name = "after-an-abandoned-call|" + rpcName(sc.RPCs[0]) + " >> " + rpcName(sc.RPCs[1])
+		out = append(out, sc)
+	}
 	if tier == "thorough" {
 		for _, c := range []string{"", "cancel"} {
 			add(c, RPC{Kind: "bd", Client: []string{"S0", "S1", "S2", "C"}, Client2: []string{"R*"}, Handler: []string{"go", "r*", "join", "ret:ok"}, Handler2: []string{"s0", "s1", "s2"}})
@@ -128,6 +138,20 @@ func c06Oracle(sc *Scenario, rec *Rec, s *mc.Sched) []mc.Violation {
 	rc := env.hooks.rec
 	if rc == nil {
 		return append(out, mc.Violation{Clause: "harness", Obs: "no recording cloner"})
+	}
+	// what a handler decodes is its own call's request, in the order sent (a copy that is recycled
+	// or refilled while the peer still holds it shows up here, not at the caller's object)
+	for i, rr := range rec.RPCs {
+		for _, m := range rr.Monitor {
+			if strings.HasPrefix(m, "prefix:handler") {
+				out = append(out, mc.Violation{Clause: "request-content", Obs: fmt.Sprintf("rpc%d: %s", i, m[len("prefix:"):]), Detail: rr})
+			}
+		}
+		for _, got := range rr.SrvRecv {
+			if got != "" && !strings.HasPrefix(got, fmt.Sprintf("%dc", i)) {
+				out = append(out, mc.Violation{Clause: "request-of-another-call", Obs: fmt.Sprintf("the handler of call %d decoded %s", i, got), Detail: rr})
+			}
+		}
 	}
 	for _, rd := range rc.reads {
 		o := rc.owned[rd.Obj]
